@@ -2,7 +2,7 @@
    Arithmetic is exact (Q); equality of coordinates is Qeq componentwise ([veq], [aeq]).
    Unit direction cosines enter as the hypothesis [orthonormal r c]. *)
 From Coq Require Import String Ascii ZArith List Bool QArith Qabs Qround.
-From HD Require Import Base.Val C10_Model C10_Proofs C10_Proofs_T C10_Proofs_L C10_Proofs_V C10_Proofs_D C10_Proofs_S C10_Proofs_X.
+From HD Require Import Base.Val C10_Model C10_Proofs C10_Proofs_T C10_Proofs_L C10_Proofs_V C10_Proofs_D C10_Proofs_S C10_Proofs_X C10_Proofs_R.
 Import ListNotations.
 Open Scope Q_scope.
 
@@ -630,3 +630,121 @@ Proof.
   split; [vm_compute; repeat split; reflexivity|]. split; vm_compute; reflexivity.
 Qed.
 Print Assumptions C10_dtype_volume_example.
+
+(* ---------------- what "rounded" means; ties between pyramid levels; histories ---------------- *)
+(* the rounding of every rounded transformer output (np.around) is to the NEAREST integer, and a
+   coordinate exactly half way between two pixel centres goes to the EVEN one *)
+Theorem C10_rounding_nearest_even q :
+  Qabs (q - inject_Z (rne q)) <= 1 # 2 /\
+  (Qabs (q - inject_Z (rne q)) == 1 # 2 -> Z.even (rne q) = true).
+Proof. exact (rne_nearest_even q). Qed.
+Print Assumptions C10_rounding_nearest_even.
+
+Theorem C10_rounding_tie m : rne (inject_Z m + (1 # 2)) = if Z.even m then m else (m + 1)%Z.
+Proof. exact (rne_tie m). Qed.
+Print Assumptions C10_rounding_tie.
+
+(* round-half-up is a different function: it disagrees on every tie above an even index *)
+Theorem C10_half_up_is_not_the_rounding m :
+  Z.even m = true -> Qfloor (inject_Z m + (1 # 2) + (1 # 2)) <> rne (inject_Z m + (1 # 2)).
+Proof. exact (half_up_differs m). Qed.
+Print Assumptions C10_half_up_is_not_the_rounding.
+
+(* two levels of a resolution pyramid (same orientation, target spacings k times the source spacings,
+   target origin at source index (a, b)): the pair is accepted and source index (i, j) is target index
+   ((i - a) / k, (j - b) / k), directly and through the frame of reference *)
+Theorem C10_pyramid_level pos r c sr sc k a b :
+  orthonormal r c -> 0 < sr -> 0 < sc -> 0 < k ->
+  let P := Aff (rotRD r c sr sc 1) pos in
+  let pos2 := aapply P (V3 a b 0) in
+  exists T Rv2,
+    p2p_make (apos pos) (aori r c) (asp sr sc) (apos pos2) (aori r c) (asp (k * sr) (k * sc)) = Ok T /\
+    p2r_make (apos pos) (aori r c) (asp sr sc) = Ok P /\
+    r2p_make (apos pos2) (aori r c) (asp (k * sr) (k * sc)) 1 = Ok Rv2 /\
+    forall i j,
+      veq (aapply T (V3 i j 0)) (V3 ((i - a) / k) ((j - b) / k) 0) /\
+      veq (aapply Rv2 (aapply P (V3 i j 0))) (V3 ((i - a) / k) ((j - b) / k) 0).
+Proof. exact (pyramid_level pos r c sr sc k a b). Qed.
+Print Assumptions C10_pyramid_level.
+
+(* k = 2: every odd source offset is an exact tie; the default (rounded) PixelToPixel transformer and
+   PixelToReference followed by the default (rounded) ReferenceToPixel transformer of the target BOTH
+   answer the even neighbour - for all geometries, all integer origins, all indices *)
+Theorem C10_pyramid_ties pos r c sr sc (a b i j m n : Z) :
+  orthonormal r c -> 0 < sr -> 0 < sc ->
+  (i - a = 2 * m + 1)%Z -> (j - b = 2 * n)%Z ->
+  let P := Aff (rotRD r c sr sc 1) pos in
+  let pos2 := aapply P (V3 (inject_Z a) (inject_Z b) 0) in
+  exists T Rv2,
+    p2p_make (apos pos) (aori r c) (asp sr sc) (apos pos2) (aori r c) (asp (2 * sr) (2 * sc)) = Ok T /\
+    r2p_make (apos pos2) (aori r c) (asp (2 * sr) (2 * sc)) 1 = Ok Rv2 /\
+    p2p_call T true [zpt (i, j)] = OutZ2 [(if Z.even m then m else (m + 1)%Z, n)] /\
+    r2p_call Rv2 true false (call_2to3 P [zpt (i, j)])
+      = Ok (OutZ3 [(if Z.even m then m else (m + 1)%Z, n, 0%Z)]).
+Proof. exact (pyramid_ties pos r c sr sc a b i j m n). Qed.
+Print Assumptions C10_pyramid_ties.
+
+(* the harness boundary of the rounded routes (kind `routes`): for EVERY accepted pair and every list
+   of source points the default PixelToPixel answer is the first two columns of the default
+   ReferenceToPixel answer on the reference positions, which is the half-to-even rounding of the
+   un-rounded answer, and map_coordinate_into_pixel_matrix answers the same triple point by point *)
+Theorem C10_round_routes_agree pf of_ sf pt ot st rows cols pts l T :
+  p2p_make pf of_ sf pt ot st = Ok T -> rows2 pts = Ok l ->
+  exists P Rv geo,
+    p2r_make pf of_ sf = Ok P /\ r2p_make pt ot st 1 = Ok Rv /\
+    run_round_routes pf of_ sf pt ot st rows cols pts =
+    VL [vpts (OutZ2 (map (fun t => (fst (fst t), snd (fst t))) (map (rz3 P Rv) l)));
+        vpts (OutZ3 (map (rz3 P Rv) l));
+        vpts (OutQ3 (map (via2 P Rv) l));
+        vres vpts (r2p_call Rv true true (call_2to3 P l));
+        VL (map (fun p => vz3 [rz3 P Rv p]) l);
+        geo].
+Proof. exact (round_routes_agree pf of_ sf pt ot st rows cols pts l T). Qed.
+Print Assumptions C10_round_routes_agree.
+
+(* VolumeGeometry.from_attributes(one frame).map_reference_to_indices(x, round_output=True) answers - as
+   (slice, row, column) - exactly what the rounded ReferenceToPixel transformer of the same plane answers
+   as (column, row, slice), for EVERY reference point (ties and off-plane points included; the slice axis
+   of the volume points along -(r x c)) *)
+Theorem C10_geometry_rounding_matches_r2p pos r c sr sc nf rows cols :
+  orthonormal r c -> 0 < sr -> 0 < sc ->
+  exists G Rv,
+    geom_from_attributes (apos pos) (aori r c) (asp sr sc) 1 nf rows cols = Ok G /\
+    r2p_make (apos pos) (aori r c) (asp sr sc) 1 = Ok Rv /\
+    forall x,
+      g_map_reference_to_indices_rounded G [x]
+        = Ok [(rne (- vz (aapply Rv x)), rne (vy (aapply Rv x)), rne (vx (aapply Rv x)))] /\
+      r2p_call Rv true false [x]
+        = Ok (OutZ3 [(rne (vx (aapply Rv x)), rne (vy (aapply Rv x)), rne (vz (aapply Rv x)))]).
+Proof. exact (geom_rounding_matches_r2p pos r c sr sc nf rows cols). Qed.
+Print Assumptions C10_geometry_rounding_matches_r2p.
+
+(* histories of ONE transformer object (kind `history`): whatever the caller does with the arrays it
+   was handed - the matrix returned by `affine` edited in place, results of earlier calls, its own input
+   arrays - every later [affine; call] observation is that of the freshly constructed object.  (Arrays
+   are values in the model; this states what an implementation must observe, it does not model aliasing.) *)
+Theorem C10_history_immutable mk call ops A :
+  mk = Ok A ->
+  exists l, run_history mk call ops = VL [VL [vaff A; call A]; VL l] /\
+    length l = length ops /\
+    forall v, In v l -> exists mine, v = VL [mine; VL [vaff A; call A]].
+Proof. exact (run_history_fresh mk call ops A). Qed.
+Print Assumptions C10_history_immutable.
+
+(* non-vacuity: level 0 -> level 1 of a pyramid with 1/4 mm pixels, origins 3 source pixels apart; source
+   column 4 is target column 1/2 (tie above the even index 0), source column 6 is 3/2 (tie above 1) *)
+Example C10_pyramid_example :
+  match run_round_routes (ASeq [10; 20; 0]) (ASeq [1; 0; 0; 0; 1; 0]) (ASeq [1 # 4; 1 # 4])
+                   (ASeq [10 + (3 # 4); 20; 0]) (ASeq [1; 0; 0; 0; 1; 0]) (ASeq [1 # 2; 1 # 2]) 8 8 [[4; 0]; [6; -3]]
+  with
+  | VL [p2p; via; VL [VL [VQ x0; _; _]; VL [VQ x1; VQ y1; _]]; dropped; helper; VL [geo; _]] =>
+      p2p = VL [VL [VZ 0; VZ 0]; VL [VZ 2; VZ (-2)]] /\
+      via = VL [VL [VZ 0; VZ 0; VZ 0]; VL [VZ 2; VZ (-2); VZ 0]] /\
+      x0 == 1 # 2 /\ x1 == 3 # 2 /\ y1 == - (3 # 2) /\
+      dropped = p2p /\
+      helper = VL [VL [VL [VZ 0; VZ 0; VZ 0]]; VL [VL [VZ 2; VZ (-2); VZ 0]]] /\
+      geo = VL [VL [VZ 0; VZ 0; VZ 0]; VL [VZ 0; VZ (-2); VZ 2]]
+  | _ => False
+  end.
+Proof. vm_compute. repeat split; reflexivity. Qed.
+Print Assumptions C10_pyramid_example.
